@@ -303,6 +303,26 @@ func keyCases(g *rig) {
 							continue
 						}
 					}
+					// Num Lock and Caps Lock are keyboard state, not part of the chord: a host that speaks the kitty
+					// protocol reports them on every key, and the child must see the same key
+					okLocks := true
+					for _, lock := range []vaxis.ModifierMask{vaxis.ModNumLock, vaxis.ModCapsLock, vaxis.ModNumLock | vaxis.ModCapsLock} {
+						if k.kind == "letter" && lock&vaxis.ModCapsLock != 0 {
+							continue // Caps Lock changes the text a letter key produces
+						}
+						k2 := key
+						k2.Modifiers |= lock
+						g.m.Update(k2)
+						r.Count("key_cases", 1)
+						if b2 := g.written(); b2 != b {
+							bad("lock-state", fmt.Sprintf("with lock bits %#x in the modifier mask the key is written as %q, without them as %q", int(lock), b2, b))
+							okLocks = false
+							break
+						}
+					}
+					if !okLocks {
+						continue
+					}
 					r.Distinct(explore.Hash("key", mname, what))
 				}
 			}
@@ -513,7 +533,7 @@ func main() {
 	n := r.Get("key_cases") + r.Get("paste_cases") + r.Get("mouse_cases")
 	r.Finish(explore.Coverage{
 		States: -1, Transitions: n, Traces: n, Evaluations: n,
-		Rule:       "keys {a-z, 0-9, 11 punctuation, 8 non-ASCII letters, arrows, Home, End, Ins, Del, PgUp, PgDn, F1-F12, Enter, Tab, Esc, Backspace, Space} x every subset of Shift/Alt/Ctrl that the xterm legacy encoding expresses unambiguously x decckm x deckpam, unmodified and Ctrl chords also as auto-repeat and paste-tagged events (each mode set directly, or both set and the unwanted one reset again); paste start/end x bracketed-paste mode (off, on, on and off again, on with a forwarded paste and then off); mouse buttons {left, middle, right, none, wheel up/down, 8-11} x press/release/motion x 3x3 positions x all 2^6 combinations of modes 1000/1002/1003/1006, alt-scroll and alternate screen, each reached in three ways (set only; all four set in either order and the others reset again); bytes written to the pipe standing in for the PTY are re-parsed by a real Vaxis on a fake console; distinct = cases that passed",
+		Rule:       "keys {a-z, 0-9, 11 punctuation, 8 non-ASCII letters, arrows, Home, End, Ins, Del, PgUp, PgDn, F1-F12, Enter, Tab, Esc, Backspace, Space} x every subset of Shift/Alt/Ctrl that the xterm legacy encoding expresses unambiguously x decckm x deckpam, unmodified and Ctrl chords also as auto-repeat and paste-tagged events, every chord also with Num Lock / Caps Lock / both reported in the mask (each mode set directly, or both set and the unwanted one reset again); paste start/end x bracketed-paste mode (off, on, on and off again, on with a forwarded paste and then off); mouse buttons {left, middle, right, none, wheel up/down, 8-11} x press/release/motion x 3x3 positions x all 2^6 combinations of modes 1000/1002/1003/1006, alt-scroll and alternate screen, each reached in three ways (set only; all four set in either order and the others reset again); bytes written to the pipe standing in for the PTY are re-parsed by a real Vaxis on a fake console; distinct = cases that passed",
 		Exhaustive: true,
 		Assumptions: []string{"chords the legacy encoding cannot express (Ctrl+Shift+letter, Alt+Shift+letter, Alt+Ctrl+letter, Ctrl+h/i/j/m, modified Enter/Tab/Esc/Backspace/Space other than Shift+Tab, Shift/Ctrl+digit or punctuation) are outside the table",
 			"wheel to arrow-key translation under alt-scroll in the alternate screen is the widget's documented feature, not a mouse report",
